@@ -314,6 +314,9 @@ func fsFamily(w *mon.W) {
 	os.WriteFile(filepath.Join(root, "a", "b", "g.txt"), []byte("INSIDE-a-b-g"), 0o644)
 	os.WriteFile(filepath.Join(dir, "secret", "c.txt"), []byte(canary), 0o644)
 	os.WriteFile(filepath.Join(dir, "c.txt"), []byte(canary), 0o644)
+	// a sibling of the root whose name begins like the root's
+	os.MkdirAll(filepath.Join(dir, "root-old"), 0o755)
+	os.WriteFile(filepath.Join(dir, "root-old", "c.txt"), []byte(canary), 0o644)
 	// virtual hosting: <root>/<host>/… — the requests are sent for host "h"; the tree of
 	// another host ("secret") is outside what they may reach
 	vroot := filepath.Join(dir, "vroot")
@@ -336,6 +339,11 @@ func fsFamily(w *mon.W) {
 		// to serve such paths): index 4, addressed with ?file=… below
 		mk(&app.FS{Root: root, IndexNames: []string{"c.txt"}, GenerateIndexPages: true, PathRewrite: func(ctx *app.RequestContext) []byte {
 			return append([]byte("/"), ctx.QueryArgs().Peek("file")...)
+		}}),
+		// a rewriter that strips a mount prefix (index 5): what is left of "/assets-old/…"
+		// has no leading slash any more
+		mk(&app.FS{Root: root, PathRewrite: func(ctx *app.RequestContext) []byte {
+			return bytes.TrimPrefix(ctx.Path(), []byte("/assets"))
 		}}),
 		// a download handler of the usual kind: one path parameter (which cannot contain a
 		// slash), appended to a directory, handed to ctx.File
@@ -423,6 +431,9 @@ func fsFamily(w *mon.W) {
 			if ei == 4 {
 				// the query-argument rewriter: the file is named by ?file=
 				t = "/download?file=" + r.Str("..", "../", "a/..", "a/../..", "../c.txt", "a/../../", "a/f.txt", "./..", "a/b/../../..")
+			}
+			if ei == 5 {
+				t = r.Str("/assets-old/c.txt", "/assets/a/f.txt", "/assets%2dold/c.txt", "/assets-old/x/../c.txt", "/assets/../c.txt", "/assetsa/f.txt")
 			}
 			// the Host header is the peer's choice too (the virtual-host rewriter makes it
 			// the first path segment)
